@@ -221,10 +221,10 @@ func c12Config(c *Ctx, idx int) {
 			compName = "plain"
 		}
 		mark := rp.log.Len()
-		reply, cerr := cl.CallF(f, 5*time.Second)
+		reply, cerr := cl.CallF(f, 30*time.Second)
 		// sentinel right behind it on the same client connection: framing towards the backend must still be in sync
 		stok := NewTok()
-		sreply, serr := cl.CallF(BuildRequest(v, stream+1, KQuery, true, stok, primitive.ConsistencyLevelOne), 5*time.Second)
+		sreply, serr := cl.CallF(BuildRequest(v, stream+1, KQuery, true, stok, primitive.ConsistencyLevelOne), 30*time.Second)
 		evs := rp.log.Snapshot()[mark:]
 		r.Eval(1)
 		var sent *mon.Event
